@@ -296,7 +296,26 @@ def _expr_form(idx: PyIndex, fi: FuncInfo, call: ast.Call, h: FuncInfo) -> Optio
                 return ast.IfExp(test=_SubstExpr(env).visit(copy.deepcopy(st.test)), body=a, orelse=b)
             return None
         return None
-    e = conv(body, dict(bound))
+    def gen_display(stmts, env):
+        """a generator function that only yields / yields from, statement after statement: what it produces, as the display `(*A, b, *C)`"""
+        elts = []
+        for st in stmts:
+            if isinstance(st, ast.Expr) and isinstance(st.value, ast.YieldFrom):
+                elts.append(ast.Starred(value=_SubstExpr(env).visit(copy.deepcopy(st.value.value)), ctx=ast.Load()))
+            elif isinstance(st, ast.Expr) and isinstance(st.value, ast.Yield) and st.value.value is not None:
+                elts.append(_SubstExpr(env).visit(copy.deepcopy(st.value.value)))
+            elif isinstance(st, ast.For) and not st.orelse and isinstance(st.target, ast.Name) and st.target.id not in env and len(st.body) == 1 \
+                    and isinstance(st.body[0], ast.Expr) and isinstance(st.body[0].value, ast.Yield) and st.body[0].value.value is not None:
+                g = ast.GeneratorExp(elt=_SubstExpr(env).visit(copy.deepcopy(st.body[0].value.value)),
+                                     generators=[ast.comprehension(target=copy.deepcopy(st.target), iter=_SubstExpr(env).visit(copy.deepcopy(st.iter)), ifs=[], is_async=0)])
+                elts.append(ast.Starred(value=g, ctx=ast.Load()))
+            else:
+                return None
+        return ast.Tuple(elts=elts, ctx=ast.Load()) if elts else None
+    if any(isinstance(x, (ast.Yield, ast.YieldFrom)) for x in ast.walk(n)):
+        e = gen_display(body, dict(bound))
+    else:
+        e = conv(body, dict(bound))
     if e is None:
         return None
     ast.fix_missing_locations(ast.Expression(body=e))
